@@ -21,6 +21,13 @@ def main():
     from vmon.probe import Rec, unjx
     rec = Rec(spec)
     out = {"ok": False}
+    cov = None
+    if os.environ.get("VMON_COVERAGE_DIR"):
+        # reach audit (tools/reach.py): line/branch coverage of the tree under test while the monitors run
+        import coverage
+        cov = coverage.Coverage(data_file=os.path.join(os.environ["VMON_COVERAGE_DIR"], "cov"), data_suffix=True, branch=True,
+                                include=[os.path.join(repo, "pycoin", "*")])
+        cov.start()
     try:
         if not spec.get("no_pycoin"):
             import pycoin
@@ -52,6 +59,9 @@ def main():
         out["ok"] = True
     except BaseException:
         out["error"] = traceback.format_exc()[-4000:]
+    if cov is not None:
+        cov.stop()
+        cov.save()
     out.update(rec.result())
     tmp = out_path + ".tmp"
     with open(tmp, "w") as f:
